@@ -135,5 +135,5 @@ pub fn strategy() -> BoxedStrategy<Case> {
 }
 
 pub fn plan(tier: Tier) -> Plan<Case> {
-    Plan { strategy: strategy(), check, shrink_iters: 2000, decode_bytes: Some(sdjwt_model::ops::decode_c08), cases: match tier { Tier::Quick => 96_000, Tier::Thorough => 3_000_000 } }
+    Plan { strategy: strategy(), check, shrink_iters: 2000, decode_bytes: Some(sdjwt_model::ops::decode_c08), watchdog_secs: 0, cases: match tier { Tier::Quick => 96_000, Tier::Thorough => 3_000_000 } }
 }
